@@ -95,3 +95,34 @@ Theorem C06_flanking_is_the_source :
   (forall o c, g_closed_by o c = closed_by o c).
 Proof. exact core_functions_regenerated. Qed.
 Print Assumptions C06_flanking_is_the_source.
+
+(* SOUNDNESS FOR EVERY TEXT without backslash, backtick and completed links (Proofs/EmphSound.v): each emphasis the inline
+   scanner finds pairs a maximal run of * or _ that can open (is_opener: the specification's left-flanking rules, proved
+   above; the source's function, proved above) with a later-processed run that can close, of the same character, not
+   excluded by the rule of three on the ORIGINAL run lengths (closed_by), and the emphasis starts inside the opening run
+   and ends inside the closing run.  By invariants of the two loops: the scanner's stack holds the delimiters of the
+   maximal runs of the text; every delimiter process_emphasis works on is what is left of one of them. *)
+From Mistletoe Require Import Proofs.InertProse Proofs.EmphSound.
+Theorem C06_emphasis_sound : forall s,
+  mem 92 s = false -> mem 96 s = false -> (forall i, 0 <= i < slen s -> char_at s i = 93 -> follows s i 40 = false)%Z ->
+  forall m, In m (fst (find_core_tokens s [])) ->
+  exists a b a' b', run_at s a b /\ run_at s a' b' /\ is_opener a b s = true /\ is_closer a' b' s = true /\
+                    char_at s a = char_at s a' /\ closed_by (new_delim a b s) (new_delim a' b' s) = true /\
+                    (a <= m_start m /\ m_start m < b /\ a' < m_end m /\ m_end m <= b')%Z.
+Proof. exact emphasis_sound. Qed.
+Print Assumptions C06_emphasis_sound.
+
+(* ... and for EVERY delimiter stack handed to process_emphasis (any stack bottom): the emitted matches pair original
+   delimiters that may be paired *)
+Theorem C06_process_emphasis_sound : forall s ds0 fuel lowest ob curr ds ms, (-1 <= lowest)%Z ->
+  stack_ok ds0 ds -> Forall (match_ok ds0) ms -> curr_ok ds curr ->
+  stack_ok ds0 (fst (emph_loop fuel s lowest ob curr ds ms)) /\ Forall (match_ok ds0) (snd (emph_loop fuel s lowest ob curr ds ms)).
+Proof. exact emph_loop_sound. Qed.
+Print Assumptions C06_process_emphasis_sound.
+
+Theorem C06_emphasis_sound_hypotheses :
+  let s := $"*a **b** c* and _d_ [x] y*" in
+  mem 92 s = false /\ mem 96 s = false /\ no_link_paren s = true /\
+  map (fun m => (m_start m, m_end m)) (fst (find_core_tokens s [])) = [(3, 8); (0, 11); (16, 19)]%Z.
+Proof. exact sound_instance. Qed.
+Print Assumptions C06_emphasis_sound_hypotheses.
